@@ -209,3 +209,29 @@ def datedelta_unit(ctx, days):
             ctx.report('correspondence', 'datedelta-shim', '%s: shim %s, model %s' % (l, a, b),
                        failing_input={'op': l, 'implementation': a, 'model': b})
             break
+
+
+# ------------------------------------------------------------------ fingerprints of the mirrored Python sources
+
+def fingerprints(ctx, funcs, expected):
+    """Normalised `ast.dump` hash of every Python function a model function mirrors. A changed fingerprint never
+    fails a check; it is recorded in the evidence (the correspondence is what decides)."""
+    import ast
+    import hashlib
+    import inspect
+    import textwrap
+    got, changed = {}, []
+    for name, fn in funcs.items():
+        try:
+            src = textwrap.dedent(inspect.getsource(fn))
+            h = hashlib.sha256(ast.dump(ast.parse(src)).encode()).hexdigest()[:16]
+        except Exception as e:          # pragma: no cover
+            h = 'unavailable:%s' % type(e).__name__
+        got[name] = h
+        if expected.get(name) not in (None, h):
+            changed.append(name)
+    ctx.extra['fingerprints'] = got
+    ctx.extra['fingerprints_changed'] = changed
+    if changed:
+        ctx.notes.append('source fingerprint changed: ' + ', '.join(changed))
+    return got
